@@ -57,9 +57,11 @@ def check_case(case) -> Result:
         el = refchem.ELECTRON
         k = (m - w) / el
         dh = refchem.atom_mass('H', False) - refchem.atom_mass('H', True)
-        if not mono and adducts is None and charge and any(abs(m - w + kk * dh) <= tol for kk in (charge, charge - (1 if charge > 0 else -1))):
+        c0 = charge or 0
+        if not mono and adducts is None and any(kk and abs(m - w + kk * dh) <= tol for kk in (c0, c0 - 1, c0 + 1)):
             # average mode: the mass calculator weighs a charge carrier as a proton, the composition lists it as H and -1 e, and
-            # average hydrogen is 1.15e-4 heavier than 1H; alone inside the allowance, together with a rounded table mass not always
+            # average hydrogen is 1.15e-4 heavier than 1H (fragment ion types carry one such hydrogen of their own, so the count is the
+            # charge or one off); alone inside the allowance, together with a rounded table mass not always
             sig = 'C03/average/charge-carriers-weighed-as-protons-on-top-of-table-rounding'
         elif adducts is not None and abs(m - w - (refmass.adduct_mass_library_quirk(adducts, mono) - refmass.adduct_mass(adducts, mono))) <= tol:
             sig = 'C03/adduct-electrons-not-multiplied-by-ion-count'
